@@ -115,7 +115,7 @@ def storeLine : List String → String
       | "array_dimensions", "array_of(len)" => r32 (store_array_dimensions_array_of_len x)
       | "attribute_list", "ty->align" => r32 (store_attribute_list_ty_align x)
       | "count_array_init_elements", "i" => r32 (store_count_array_init_elements_i x)
-      | "declspec", "attr->align" => r32 (store_declspec_attr_align x)
+      | "declspec", "align" => r32 (store_declspec_align x)
       | "enum_specifier", "val" => r32 (store_enum_specifier_val x)
       | "stmt", "begin" => toString (store_stmt_begin x).toInt
       | "stmt", "end" => toString (store_stmt_end x).toInt
